@@ -110,6 +110,17 @@ AWAITED_TASK_DESTROYED = [
 ]
 
 
+# C05 names FairThreadPool among its executors (the pool itself is C08's model): HardStop must Drop the queued jobs OUTSIDE the
+# pool's mutex — a dropped pipeline step feeds StopError to its successor, which is Submitted to the same pool from inside the
+# Drop (seeded C05-4 = C08-3: self-deadlock, the remaining jobs are neither Called nor Dropped).  The C08 harness has exactly
+# that job kind (`dropsub`: every job's Drop() submits a follow-up to the same pool); three hard-stop scenarios, < 1 s.
+HARDSTOP_DROP_SUBMITS = [
+    'pool workers=1 subs=1 virt=1 stop=hard race=0 late=1 kind=dropsub',
+    'pool workers=1 subs=1 virt=1 stop=hard race=1 late=1 kind=dropsub',
+    'pool workers=1 subs=2 virt=1,1 stop=hard race=1 late=1 kind=dropsub',
+]
+
+
 def harness_stage(res, prop, tier, name, src, scenarios, args, what):
     """run the schedule explorer harness `src` restricted to `scenarios`; every violation is a VIOLATION of `prop` whose replay
     is the schedule (scenario + choices) of that harness"""
@@ -157,6 +168,14 @@ def run(res, prop, tier):
     prop_fail, corr_fail = pipe.check(res, prop, tier, nq, nt, twins=(prop == 'C12'), exhaustive_steps=2 if prop == 'C02' else 1)
     if prop == 'C20':
         prop_fail = list(prop_fail) + comb_check(res, tier)
+    if prop == 'C05':
+        ff, fc = pipe.free_check(res, tier)   # jobs that are not pipeline steps: yaclib::Submit(e, f)
+        prop_fail, corr_fail = list(prop_fail) + ff, list(corr_fail) + fc
+        prop_fail += harness_stage(
+            res, prop, tier, 'c08', 'c08.cpp', HARDSTOP_DROP_SUBMITS,
+            ['--mode', 'dfs', '--set', 'quick', '--pb', '1', '--wb', '0', '--max-exec', '20000'],
+            'FairThreadPool::HardStop with queued jobs whose Drop() submits to the same pool (a dropped pipeline step passes '
+            'StopError to a successor on the pool)')
     if prop == 'C12':
         prop_fail = list(prop_fail) + harness_stage(
             res, prop, tier, 'c13', 'c13.cpp', AWAITED_TASK_DESTROYED, ['--mode', 'dfs', '--pb', '2', '--wb', '0'],
